@@ -8,6 +8,12 @@ package users
 //@   requires concurrency >= 1 && wfManager(workers)
 //@   ghost before call (*PoolManager).NewContinuousPool : assert [concurrency] arg1 == concurrency && arg0 == workers
 //@
+//@ // the users trigger starts as many users as --concurrency says
+//@ func Rate$1$1
+//@   props C04 C14
+//@   requires options.Concurrency >= 1 && wfManager(workers)
+//@   assert before call NewWorker : [as-many-users-as-configured] arg0 == options.Concurrency
+//@
 //@ func NewWorker
 //@   props C14 C04
 //@   modifies nothing
